@@ -456,6 +456,9 @@ void XSerializeEngine::read(XMLByte* const toRead
     {
         fillBuffer();
         memcpy(tempRead, fBufCur, fBufSize);
+        // the whole buffer is consumed: if nothing remains to be read the
+        // next read() must not find these bytes again
+        fBufCur    += fBufSize;
         tempRead   += fBufSize;
         readRemain -= fBufSize;
     }
